@@ -24,6 +24,8 @@ def parseOp (j : Json) : Except String Op := do
   | "instSet" => return .instSet (← getNat j "i") (← getStr j "n") (← getInt j "v")
   | "instParam" => return .instParam (← getNat j "i") (← getStr j "n")
   | "instBlock" => return .instBlock (← getNat j "i")
+  | "watchCls" => return .watchCls (← getNat j "c") (← getStr j "n")
+  | "watchInst" => return .watchInst (← getNat j "i") (← getStr j "n")
   | "clsSetParam" => return (.clsSetParam (← getNat j "c") (← getStr j "n") (← getInt j "d") ((getOpt j "hi").bind optInt))
   | o => throw s!"unknown op {o}"
 
@@ -35,6 +37,7 @@ def opName : Op → String
   | .read .. => "read" | .clsSet .. => "clsSet" | .addParam .. => "addParam"
   | .newInst .. => "newInst" | .instSet .. => "instSet" | .instParam .. => "instParam"
   | .instBlock .. => "instBlock" | .clsSetParam .. => "clsSetParam"
+  | .watchCls .. => "watchCls" | .watchInst .. => "watchInst"
 
 /-- which branch of the model the step took (coverage table) -/
 def branchOf (s : St) (op : Op) (r : Res) : String :=
@@ -58,6 +61,8 @@ def branchOf (s : St) (op : Op) (r : Res) : String :=
     | .instParam i n => match s.insts[i]? with
         | some x => if (aget x.iparams n).isSome then ":has-copy" else ":makes-copy"
         | none => ""
+    | .watchCls .. => ""
+    | .watchInst .. => ""
   opName op ++ ":" ++ resName r ++ extra
 
 def parseClsRow (j : Json) : Except String ClsRow := do
